@@ -3,7 +3,7 @@ import ImathVerif.Model.GaussJordan
 Line-protocol driver for C06 (Gauss-Jordan inversion, H-route).  Core Lean only.
 
 stdin: one case per line   `<tag> <3|4> <d|f> <n*n hex bit patterns, row-major>`
-stdout: one line per case  `<tag> <n><ty> exc=<ok|invalidArgument> <n*n hex bit patterns of M.gjInverse(), NaN as `nan`> qeq=<1|0|x>`
+stdout: one line per case  `<tag> <n><ty> exc=<ok|invalidArgument> <n*n hex bit patterns of M.gjInverse(), NaN as `nan`> qeq=<1|0|x> exit=<f<i>|b<i>|-> swap=<stages|->`
 
 The model (`ImathVerif.M33.gjInverse`, `M44.gjInverse`, and the throwing `…Exc` forms — the very
 definitions the theorems are about) is evaluated at `Float` (binary64) or `Float32`; Lean's float
@@ -12,6 +12,12 @@ model keeps the operand order of the code, so the lines must agree with the real
 `qeq=1` says that the same model evaluated in exact rational arithmetic (`Rat`) on the exact values of
 the inputs gives exactly the values of the floating-point result (and the same singular/regular
 outcome), i.e. no operation rounded; `x` = some input is not finite.
+`exit=` names the loop iteration at which the floating-point run of the model left through a zero pivot
+(`f<i>`: forward stage `i`, `b<i>`: backward stage `i`, `-`: none) and `swap=` the forward stages at which
+rows were exchanged (generator-reach accounting in tools/props/c06.py; the run is bit-identical to the real code).
+For tags beginning with `x` or `y` (the exhaustive small-integer 3×3 families) a field
+` rat=<ok|invalidArgument>:<n*n reduced fractions>` follows: the model evaluated over `Rat`, compared by the check with
+`det⁻¹ • adjugate` computed in exact integers by the harness.
 -/
 open ImathVerif
 
@@ -48,6 +54,34 @@ def m44OfArr {α : Type} [Inhabited α] (a : Array α) : M44 α :=
 def m44ToArr {α : Type} (m : M44 α) : Array α :=
   #[m.x00, m.x01, m.x02, m.x03, m.x10, m.x11, m.x12, m.x13, m.x20, m.x21, m.x22, m.x23, m.x30, m.x31, m.x32, m.x33]
 
+/-- where the run leaves through a zero pivot, and the forward stages with a row exchange (same `forwardStep` /
+`backwardStep` / `pivotSearch` as `gjCore`) -/
+def gjTrace {α : Type} [Sub α] [Mul α] [Div α] [Neg α] [LT α] [DecidableLT α] [BEq α] [OfNat α 0] [OfNat α 1]
+    {n : Nat} (m : GJ.Mat n α) : String :=
+  let fw := (GJ.fwdIdx n).foldl
+    (fun (acc : Option (GJ.Mat n α × GJ.Mat n α) × String × String) i =>
+      match acc.1 with
+      | none => acc
+      | some st =>
+        match GJ.forwardStep st i with
+        | none => (none, s!"f{i.val}", acc.2.2)
+        | some st' => (some st', acc.2.1, if (GJ.pivotSearch st.2 i).1 = i then acc.2.2 else acc.2.2 ++ toString i.val))
+    (some (GJ.Mat.identity, m), "-", "")
+  let bw := (GJ.bwdIdx n).foldl
+    (fun (acc : Option (GJ.Mat n α × GJ.Mat n α) × String) i =>
+      match acc.1 with
+      | none => acc
+      | some st =>
+        match GJ.backwardStep st i with
+        | none => (none, s!"b{i.val}")
+        | some st' => (some st', acc.2))
+    (fw.1, fw.2.1)
+  s!"exit={bw.2} swap={if fw.2.2 == "" then "-" else fw.2.2}"
+
+def traceAt {α : Type} [Inhabited α] [Sub α] [Mul α] [Div α] [Neg α] [LT α] [DecidableLT α] [BEq α] [OfNat α 0] [OfNat α 1]
+    (n : Nat) (a : Array α) : String :=
+  if n == 3 then gjTrace (m33OfArr a).toGJ else gjTrace (m44OfArr a).toGJ
+
 /-- run the model at scalar `α`: (throwing form is `.ok`, values of the non-throwing form) -/
 def runAt {α : Type} [Inhabited α] [Sub α] [Mul α] [Div α] [Neg α] [LT α] [DecidableLT α] [BEq α] [OfNat α 0] [OfNat α 1]
     (n : Nat) (a : Array α) : Bool × Array α :=
@@ -70,23 +104,28 @@ def processLine (line : String) : Option String :=
     let n := ns.toNat!
     if hs.length != n * n then some s!"{tag} bad-arity" else
     let bits := (hs.map parseHex).toArray
-    let (okF, outHex, outQ) : Bool × Array String × Array (Option Rat) :=
+    let (okF, outHex, outQ, tr) : Bool × Array String × Array (Option Rat) × String :=
       if ty == "d" then
-        let (ok, r) := runAt n (bits.map fun b => Float.ofBits b.toUInt64)
-        (ok, r.map (fun x => if x.isNaN then "nan" else hexDigits x.toBits.toNat 16), r.map (fun x => bitsToQ 11 52 x.toBits.toNat))
+        let fa := bits.map fun b => Float.ofBits b.toUInt64
+        let (ok, r) := runAt n fa
+        (ok, r.map (fun x => if x.isNaN then "nan" else hexDigits x.toBits.toNat 16), r.map (fun x => bitsToQ 11 52 x.toBits.toNat), traceAt n fa)
       else
-        let (ok, r) := runAt n (bits.map fun b => Float32.ofBits b.toUInt32)
-        (ok, r.map (fun x => if x.isNaN then "nan" else hexDigits x.toBits.toNat 8), r.map (fun x => bitsToQ 8 23 x.toBits.toNat))
+        let fa := bits.map fun b => Float32.ofBits b.toUInt32
+        let (ok, r) := runAt n fa
+        (ok, r.map (fun x => if x.isNaN then "nan" else hexDigits x.toBits.toNat 8), r.map (fun x => bitsToQ 8 23 x.toBits.toNat), traceAt n fa)
     let inQ := allSome (bits.map fun b => if ty == "d" then bitsToQ 11 52 b else bitsToQ 8 23 b)
-    let qeq : String :=
+    let (qeq, rat) : String × String :=
       match inQ with
-      | none => "x"
+      | none => ("x", "-")
       | some q =>
         let (okQ, rQ) := runAt n q
-        match allSome outQ with
-        | none => "0"
-        | some fq => if okQ == okF && rQ == fq then "1" else "0"
-    some s!"{tag} {n}{ty} exc={if okF then "ok" else "invalidArgument"} {" ".intercalate outHex.toList} qeq={qeq}"
+        (match allSome outQ with
+         | none => "0"
+         | some fq => if okQ == okF && rQ == fq then "1" else "0",
+         s!"{if okQ then "ok" else "invalidArgument"}:{",".intercalate (rQ.toList.map toString)}")
+    -- exhaustive small-integer families (tags x…, y…): also print the result of the model in exact rational arithmetic
+    let ratOut := if tag.startsWith "x" || tag.startsWith "y" then s!" rat={rat}" else ""
+    some s!"{tag} {n}{ty} exc={if okF then "ok" else "invalidArgument"} {" ".intercalate outHex.toList} qeq={qeq} {tr}{ratOut}"
   | _ => none
 
 partial def loop (h : IO.FS.Stream) (out : IO.FS.Stream) : IO Unit := do
